@@ -7,6 +7,22 @@ from .url_grammar import gen_url, gen_su, spelling_variants, call
 THEOREMS = ['C02_port_idem', 'C02_upper_quoted_idem', 'C02_safely_quote_idem', 'C02_examples (computed)'] + ["(main statement: harness deciders on the implementation + model correspondence — partial)"]
 
 
+def colonless_protocol(u):
+    """Predicate of known finding F-C10: the cleaned string starts with what PROTOCOL_RE takes for a protocol
+    ('word//' or '://', no scheme for the standard parser): the first canonicalization yields a scheme-less relative
+    reference whose '//' is squeezed, the second one then prepends the default protocol."""
+    import re
+    import urllib.parse as U
+    from ural.patterns import CONTROL_CHARS_RE
+    c = CONTROL_CHARS_RE.sub("", u).strip()
+    if not re.match(r"^[a-zA-Z]{0,64}:?//", c) or c.startswith("//"):
+        return False
+    try:
+        return U.urlsplit(c).scheme == ""
+    except ValueError:
+        return False
+
+
 def raw_unsafe(u):
     """Predicate of known finding F-C7: some component holds, raw, a character that quote() escapes but that
     the component's unquoter keeps escaped: a dangling '%' (not followed by two hex digits), or one of
@@ -54,7 +70,9 @@ def run(res, tier, rng):
                     nontriv.add((u, q, sf))
                 c2 = call(canonicalize_url, c1, quoted=q, strip_fragment=sf)
                 if c2 != c1:
-                    if q and in_known_class(u, known):
+                    if colonless_protocol(u) and any(k.get("id") == "F-C10" for k in known):
+                        hits.setdefault("F-C10", "a protocol without colon: canonicalize_url(%r) = %r, again = %r" % (u, c1, c2))
+                    elif q and in_known_class(u, known):
                         hits.setdefault("F-C7", "quoted mode on a component holding a dangling '%%' or a raw sub-delimiter: canonicalize_url(%r, quoted=True) = %r, again = %r" % (u, c1, c2))
                     else:
                         res.violation("property", "canonicalize_url is not idempotent", input=dict(url=u, quoted=q, strip_fragment=sf), impl=[c1, c2])
